@@ -7,6 +7,9 @@
  *   poly <op> ... (as in h_poly) under whatever order is in force
  */
 #include "hpoly.h"
+#include <polynomial_vector.h>
+#include <polynomial_heap.h>
+#include <polynomial_hash_set.h>
 
 static lp_variable_order_t* ord; static lp_polynomial_context_t* octx[2]; static int oring[2] = { 0, 1 };
 
@@ -176,6 +179,63 @@ static void order_case(void) {
       emit_eqhash(T, F, ri);
       { obj t; t.p = T; t.L = cur; t.external = 1; t.ri = ri; emit_check(&t); }
       lp_polynomial_delete(F); lp_polynomial_delete(T);
+      for (int t = 0; t < 3; ++t) emit_check(&o[t]);
+    }
+    else if (k < 4 && chance(35)) {
+      /* a copy (new_copy / construct_copy / assign) taken from an external polynomial that has not been touched since the order
+         changed: the copy is a new object, created under the current order, so it must be laid out in the current order */
+      int i = chance(50) ? 0 : 2;
+      order_mutate();
+      unsigned w = rnd(3);
+      lp_polynomial_t* C;
+      if (w == 0) C = lp_polynomial_new_copy(o[i].p);
+      else if (w == 1) { C = lp_polynomial_alloc(); lp_polynomial_construct_copy(C, o[i].p); }
+      else { C = rnd_poly(r); lp_polynomial_assign(C, o[i].p); }
+      { obj t; t.p = C; t.L = cur; t.external = 0; t.ri = ri; emit_check(&t); }
+      emit_eqhash(C, o[i].p, ri);
+      o[i].L = cur;
+      /* and it can be used as an operand at once */
+      lp_polynomial_t* R = lp_polynomial_new(octx[r]);
+      sb_begin("poly", "sub"); sb_sp(); hp_ring_token(ri); sb_sp(); sb_str("f"); sb_sp(); sb_poly(C); sb_sp(); sb_poly(o[i].p); sb_arrow();
+      lp_polynomial_sub(R, C, o[i].p); sb_sp(); sb_poly(R); sb_emit();
+      sb_begin("poly", "obs"); sb_sp(); hp_ring_token(ri); sb_sp(); sb_str("f"); sb_sp(); sb_poly(R); sb_arrow();
+      sb_sp(); sb_long(lp_polynomial_is_zero(R)); sb_sp(); sb_long(lp_polynomial_is_constant(R)); sb_sp(); sb_ulong(lp_polynomial_degree(R)); sb_sp(); sb_str("-"); sb_emit();
+      lp_polynomial_delete(R); lp_polynomial_delete(C);
+      for (int t = 0; t < 3; ++t) emit_check(&o[t]);
+    }
+    else if (k < 4 && chance(35)) {
+      /* an external polynomial that has not been touched since the order changed goes into a container (copy or move): what the
+         container hands back is a new non-external object of the current order, equal to the polynomial that went in */
+      int i = chance(50) ? 0 : 2;
+      lp_polynomial_t* src = lp_polynomial_new_copy(o[i].p); lp_polynomial_set_external(src);
+      order_mutate();
+      unsigned w = rnd(6);
+      lp_polynomial_t* back = 0; int found = 1;
+      if (w < 2) {
+        lp_polynomial_vector_t* v = lp_polynomial_vector_new(octx[r]);
+        if (w == 0) lp_polynomial_vector_push_back(v, src); else lp_polynomial_vector_push_back_move(v, src);
+        back = lp_polynomial_vector_at(v, 0);
+        lp_polynomial_vector_delete(v);
+      } else if (w < 4) {
+        lp_polynomial_heap_t* h = lp_polynomial_heap_new(lp_polynomial_cmp);
+        if (w == 2) lp_polynomial_heap_push(h, src); else lp_polynomial_heap_push_move(h, src);
+        back = lp_polynomial_heap_pop(h);
+        lp_polynomial_heap_delete(h);
+      } else {
+        lp_polynomial_hash_set_t* hs = lp_polynomial_hash_set_new();
+        if (w == 4) lp_polynomial_hash_set_insert(hs, src); else lp_polynomial_hash_set_insert_move(hs, src);
+        lp_polynomial_t* q = rebuild(o[i].p, r);
+        found = lp_polynomial_hash_set_contains(hs, q);
+        lp_polynomial_delete(q);
+        lp_polynomial_hash_set_close(hs);
+        back = lp_polynomial_new_copy(hs->data[0]);
+        lp_polynomial_hash_set_delete(hs);
+      }
+      o[i].L = cur;
+      { obj t; t.p = back; t.L = cur; t.external = 0; t.ri = ri; emit_check(&t); }
+      emit_eqhash(back, o[i].p, ri);
+      sb_begin("ord", "found"); sb_sp(); sb_long((long)w); sb_arrow(); sb_sp(); sb_long(found); sb_emit();
+      lp_polynomial_delete(back); lp_polynomial_delete(src);
       for (int t = 0; t < 3; ++t) emit_check(&o[t]);
     }
     else if (k < 4) { order_mutate(); for (int i = 0; i < 3; ++i) emit_check(&o[i]); }
